@@ -112,3 +112,57 @@ var _ = utils.SpecHasPrefix
 //@ contract Context.RootContext
 //@   tags C05
 //@   opt inline yes
+
+// ---- C19: zero-annotation safety sweep over the processors reachable from Operator.Run ----------
+//@ contract Assemble.ProcessLine
+//@   tags C19
+//@   opt termination C19
+//@   results err
+
+//@ contract Assemble.Complete
+//@   tags C19
+//@   opt termination C19
+//@   results lines err
+
+//@ contract Assemble.Consume
+//@   tags C19
+//@   opt termination C19
+//@   results err
+
+//@ contract Assemble.store
+//@   tags C19 C16
+//@   opt termination C19
+//@   results err
+//@   ensures[C16] missing-identifier-fails: implies(len(identifier) == 0, err != nil)
+
+//@ contract Assemble.append
+//@   tags C19 C16
+//@   opt termination C19
+//@   results err
+//@   decreases len(identifier)
+
+//@ contract Assemble.runAssemble
+//@   tags C19
+//@   opt termination C19
+//@   results r err
+
+//@ contract Assemble.wrapCompletedAssembly
+//@   tags C19
+//@   opt termination C19
+//@   results result
+
+//@ contract CmdLine.ProcessLine
+//@   tags C19 C04
+//@   opt termination C19
+//@   opt trust-pre CmdLine.regexpStr/ascii
+//@   results err
+
+//@ contract CmdLine.Complete
+//@   tags C19
+//@   opt termination C19
+//@   results lines err
+
+//@ contract CmdLine.Consume
+//@   tags C19
+//@   opt termination C19
+//@   results err
